@@ -22,7 +22,7 @@ A = {
  "C05-w7B": ("circularbuffer Dequeue on an empty ring still advances start (the next Enqueue finds the ring 'full')", {}),
  "C05-w7C": ("circularbuffer Peek on an empty ring rewinds the cursors (a write in a read-only call: visible only as a data race)", {}),
  "C06-w7A": ("binaryheap Values() level-sorts list.Values() in place + arraylist Values() clips instead of cloning: the caller holds the heap's array", {}),
- "C06-w7B": ("arraylist FromJSON decodes into the list's own spare capacity when empty: a load that fails on a type error leaves values that a later document's nulls pick up", {}),
+ "C06-w7B": ("arraylist FromJSON decodes into the list's own spare capacity when empty: a load that fails on a type error leaves values that a later document's nulls pick up", {S: "C12 places a rejected document (one wrongly typed element after good ones) directly before an accepted one whose elements are partly null (F18) or partial structs, half the time right after a Clear"}),
  "C06-w7C": ("binaryheap bulk Push calls list.Add(values...) + arraylist Add adopts the argument slice when it has no storage", {}),
  "C07-w7B": ("redblacktree Put of a present key falls through to insertCase1 (a no-op Put recolours and rotates; later inserts unbalance the tree)", {}),
  "C07-w7C": ("redblacktree Put of a key that compares equal but is not == removes and re-inserts (three descents: over the bound under a coarsened comparator)", {}),
